@@ -297,6 +297,7 @@ def coq_files():
 def coq_prepare():
     """(Re)generate _CoqProject and Makefile when the set of .v files changed."""
     files = coq_files()
+    os.makedirs(os.path.join(ROOT, "ocaml", "gen"), exist_ok=True)      # target directory of the Extraction commands (not under version control)
     proj = "-Q . Nice\n-arg -w -arg -all\n" + "\n".join(files) + "\n"
     changed = write_if_changed(os.path.join(COQ, "_CoqProject"), proj)
     if changed or not os.path.exists(os.path.join(COQ, "Makefile")):
